@@ -217,3 +217,15 @@ Definition finish_with_output (p : proc) (held : list (evclass * bytes)) (es : Z
   : list notification :=
   flush_events p held ++
   match finish p es tq ee now with Done _ out => out | AssertionError _ out => out end.
+
+(* ------------------------------------------------------------ (e) the exit status finish() judges *)
+
+(* options.decode_wait_status(sts)[0] on a POSIX wait status: the low 7 bits are the
+   terminating signal (0 = exited), bit 7 the core flag, the next byte the exit
+   status; -1 when the process was killed by a signal *)
+Definition wait_exit_status (sts : Z) : Z :=
+  if (sts mod 128) =? 0 then (sts / 256) mod 256 else -1.
+
+(* exit_expected = es in self.config.exitcodes *)
+Definition exit_expected (sts : Z) (exitcodes : list Z) : bool :=
+  existsb (Z.eqb (wait_exit_status sts)) exitcodes.
